@@ -38,9 +38,15 @@ type Snip struct {
 }
 
 type prod struct {
-	lhs string
-	rhs []string
-	idx int // index among the productions of lhs
+	lhs    string
+	rhs    []string
+	idx    int    // index among the productions of lhs
+	action string // text of the semantic action(s); only used to see whether it branches
+}
+
+// branchy: the semantic action looks at what its children are (type switch, condition, loop).
+func (p *prod) branchy() bool {
+	return strings.Contains(p.action, "switch ") || strings.Contains(p.action, "if ") || strings.Contains(p.action, "for ")
 }
 
 type grammar struct {
@@ -88,7 +94,9 @@ func readGrammar(path, name string) *grammar {
 			}
 			k += 2
 		case c == '{':
-			k = skipAction(rules, k)
+			e := skipAction(rules, k)
+			toks = append(toks, "\x00"+rules[k:e])
+			k = e
 		case c == '\'':
 			e := k + 1
 			for rules[e] != '\'' {
@@ -131,11 +139,13 @@ func readGrammar(path, name string) *grammar {
 			g.start = lhs
 		}
 		cur := []string{}
+		act := ""
 		flush := func() {
-			p := &prod{lhs: lhs, rhs: cur, idx: len(g.by[lhs])}
+			p := &prod{lhs: lhs, rhs: cur, idx: len(g.by[lhs]), action: act}
 			g.prods = append(g.prods, p)
 			g.by[lhs] = append(g.by[lhs], p)
 			cur = []string{}
+			act = ""
 		}
 		for {
 			if k >= len(toks) || (k+1 < len(toks) && toks[k+1] == ":") {
@@ -155,6 +165,10 @@ func readGrammar(path, name string) *grammar {
 			}
 			if t == "%prec" {
 				k++
+				continue
+			}
+			if strings.HasPrefix(t, "\x00") {
+				act += t[1:]
 				continue
 			}
 			cur = append(cur, t)
@@ -715,6 +729,90 @@ func main() {
 						}
 						if mid, ok := g.expand(p, sub); ok {
 							emit(g, "pair", fmt.Sprintf("%s/%d=%s#%d+opt%d", origin, i, s, q.idx, mask), p.lhs, mid)
+						}
+					}
+				}
+			}
+		}
+	}
+	// (6 - emitted before the doubled programs, after everything else) triples: production p
+	//     whose semantic action branches (switch / if / for in its text), position i, child
+	//     production q, position j of q, grandchild production r - with all
+	//     nullable siblings of p and of q present and, separately, absent. Semantic actions
+	//     that switch on the shape of one child while another child is present
+	//     ("$a -> a -> a [ ] ( )": a dim-form property followed by a call) need this depth.
+	for _, g := range gs {
+		gn := g.name
+		nullableOf := func(p *prod) []int {
+			var nl []int
+			for i, s := range p.rhs {
+				if g.isNT(s) && len(g.min[s]) == 0 {
+					if _, ok := g.minNE[s]; ok {
+						nl = append(nl, i)
+					}
+				}
+			}
+			return nl
+		}
+		for _, p := range g.prods {
+			if !usable(p) || !p.branchy() {
+				continue
+			}
+			origin := fmt.Sprintf("%s.y:%s#%d", gn, p.lhs, p.idx)
+			pNull := nullableOf(p)
+			for i, s := range p.rhs {
+				if !g.isNT(s) {
+					continue
+				}
+				for _, q := range g.by[s] {
+					if !usable(q) {
+						continue
+					}
+					qNull := nullableOf(q)
+					for j, t := range q.rhs {
+						if !g.isNT(t) || len(g.by[t]) < 2 {
+							continue
+						}
+						for _, r := range g.by[t] {
+							if !usable(r) {
+								continue
+							}
+							rm, ok := g.expand(r, nil)
+							if !ok {
+								continue
+							}
+							for _, withOpt := range []bool{false, true} {
+								if withOpt && len(pNull) == 0 && len(qNull) == 0 {
+									continue
+								}
+								qsub := map[int][]string{j: rm}
+								if withOpt {
+									for _, k := range qNull {
+										if k != j {
+											qsub[k] = g.minNE[q.rhs[k]]
+										}
+									}
+								}
+								qm, ok := g.expand(q, qsub)
+								if !ok {
+									continue
+								}
+								psub := map[int][]string{i: qm}
+								if withOpt {
+									for _, k := range pNull {
+										if k != i {
+											psub[k] = g.minNE[p.rhs[k]]
+										}
+									}
+								}
+								if mid, ok := g.expand(p, psub); ok {
+									tag := ""
+									if withOpt {
+										tag = "+opt"
+									}
+									emit(g, "triple", fmt.Sprintf("%s/%d=%s#%d/%d=%s#%d%s", origin, i, s, q.idx, j, t, r.idx, tag), p.lhs, mid)
+								}
+							}
 						}
 					}
 				}
